@@ -11,7 +11,7 @@
         R6 (unlock); R0 = receive Ptr(t), R1 = run the update. *)
 From Coq Require Import List Arith Bool.
 From AM Require Import Rust.Ast Rust.Syntax Rust.Script Gen.HotReloading Gen.Deps
-  Proofs.AnsInv Proofs.AnsR Proofs.AnsC Proofs.Dfs Tie.Answers Tie.Graph.
+  Proofs.AnsInv Proofs.AnsR Proofs.AnsC Proofs.AnsWork Proofs.Dfs Tie.Answers Tie.Graph.
 Import ListNotations.
 
 (* 1. The code has the protocol the theorems are about. *)
@@ -33,6 +33,21 @@ Qed.
 Theorem C08_no_deadlock : forall N s,
   stepsN N init s -> (exists i, i < N /\ cs s i <> CDone) -> can_stepN N s.
 Proof. exact answers_no_deadlock. Qed.
+
+(* 2b. Bounded work, hence termination without any fairness assumption: every step of the N callers
+       and the reloader strictly decreases a natural-number measure (waiting loops included: a
+       sleeper only runs again after one of the at most 2N notifications), so an execution has at
+       most work_bound N = N * (16 + 4 * (N + 1)) + 1 steps, and when it cannot go on every caller
+       has returned. *)
+Theorem C08_every_step_decreases_the_measure : forall N x y, stepN N x y -> measure N y < measure N x.
+Proof. exact step_decreases. Qed.
+
+Theorem C08_bounded_work : forall N k s, runN N k init s -> k <= work_bound N.
+Proof. exact bounded_work. Qed.
+
+Theorem C08_every_call_returns : forall N k s,
+  runN N k init s -> ~ can_stepN N s -> forall i, i < N -> cs s i = CDone.
+Proof. exact stuck_means_all_returned. Qed.
 
 (* 3. A caller leaves its wait only on the answer to its own request, and tokens are never
       shared: whoever holds token t in state s is that caller. *)
